@@ -643,7 +643,8 @@ class Fxp():
 
         """
 
-        x = self.copy()
+        # a deep copy: the returned object must not share config, status or callbacks with self
+        x = self.deepcopy()
         x.val = x.val.flatten(order)
         return x
 
